@@ -74,3 +74,46 @@ func (c *vCapture) Write(p []byte) (int, error) {
 	c.writes++
 	return len(p), nil
 }
+
+// VH_C12_fasta_writers_arrival: WriteAlignment / WriteWrapAlignment restore input order for every arrival
+// order of N records with distinct content.
+func VH_C12_fasta_writers_arrival() {
+	N := vParam("N")
+	wrap := vParam("WRAP")
+	recs := make([]FastaRecord, N)
+	exp := ""
+	for i := 0; i < N; i++ {
+		seq := "ACGTA"[:3+i%3] + string(rune('A'+i))
+		recs[i] = FastaRecord{ID: "r" + string(rune('0'+i)), Seq: seq, Idx: i}
+		exp += ">r" + string(rune('0'+i)) + "\n"
+		if wrap > 0 {
+			for k := 0; k < len(seq); k += wrap {
+				e := k + wrap
+				if e > len(seq) {
+					e = len(seq)
+				}
+				exp += seq[k:e] + "\n"
+			}
+		} else {
+			exp += seq + "\n"
+		}
+	}
+	used := make([]bool, N)
+	ch := make(chan FastaRecord, N)
+	for i := 0; i < N; i++ {
+		c := vChoice(vName("arrive", i), N)
+		vAssume(!used[c])
+		used[c] = true
+		ch <- recs[c]
+	}
+	close(ch)
+	out := &vCapture{}
+	cDone := make(chan bool, 1)
+	cErr := make(chan error, 8)
+	if wrap > 0 {
+		WriteWrapAlignment(ch, out, wrap, cDone, cErr)
+	} else {
+		WriteAlignment(ch, out, cDone, cErr)
+	}
+	vAssert("C12.fasta.writer-restores-input-order", string(out.buf) == exp && len(cDone) == 1 && len(cErr) == 0)
+}
